@@ -541,6 +541,7 @@ func main() {
 		"chan_sends_hooked":             rst.ChanSendsHooked,
 		"chan_ops_unhooked":             rst.ChanOpsUnhooked,
 		"sync_imports_rewritten":        rst.SyncImportsRewritten,
+		"stdout_sinks_hooked":           rst.StdoutSinksHooked,
 		"package_vars_reset":            rst.PkgVarsReset,
 		"package_vars_not_reset":        rst.PkgVarsNotReset,
 		"violation_signatures":          violCount,
